@@ -200,7 +200,27 @@ class World:
             for k in ("m1", "m2"):
                 if isinstance(sl.data.get(k), model.RefGraph):
                     ms.append(sl.data[k])
-        return any(m.search_bound() > self.HANG_BOUND for m in ms)
+        return any(m.search_bound() > self.HANG_BOUND or m.colouring_cost() > self.COLOUR_BOUND for m in ms)
+
+    COLOUR_BOUND = 60000
+
+    def too_costly_to_probe(self, op):
+        """an atom of a stereo graph with nine or more neighbours and no
+        oriented descriptor (composition of overlapping pieces gets there)
+        costs 9! and more neighbour orders per colouring - correct, but
+        minutes per call: such graphs are edited and derived from, not probed"""
+        k = op["k"]
+        if not (k in PROBE_KINDS or (k == "q" and op.get("q") in ("hash", "eq_self"))
+                or k in ("deserialize",)):
+            return False
+        for f in ("s", "s1", "s2", "g1", "g2", "src"):
+            sl = self.slots.get(op.get(f)) if isinstance(op.get(f), int) else None
+            if sl is None:
+                continue
+            mm = sl.model if sl.kind == "graph" else sl.data.get("model")
+            if isinstance(mm, RefGraph) and mm.colouring_cost() > self.COLOUR_BOUND:
+                return True
+        return False
 
     def run(self, ops, stop_on_violation=True):
         for i, op in enumerate(ops):
@@ -229,6 +249,9 @@ class World:
             op = json.loads(json.dumps(op))
             self.cur_op = op
         k = op["k"]
+        if self.too_costly_to_probe(op):
+            self.stats["probe_skipped:factorial-colouring"] += 1
+            return None
         self.stats["op:" + k] += 1
         h = getattr(self, "op_" + k, None)
         if h is not None:
